@@ -477,7 +477,7 @@ def krome_reset(ctx, pkg, rule="R4"):
     net = pkg.cls("Network")
     for mname in ("add_reaction_from_file", "add_reaction"):
         fn = net.methods[mname]
-        init_calls = [n for n in ast.walk(fn) if isinstance(n, ast.Call) and ast.unparse(n.func) == "rclass.initialize"]
+        init_calls = [n for n in ast.walk(fn) if isinstance(n, ast.Call) and isinstance(n.func, ast.Attribute) and n.func.attr == "initialize" and isinstance(n.func.value, ast.Name)]
         reads = [n for n in ast.walk(fn) if isinstance(n, ast.Call) and ast.unparse(n.func) == "self._add_reaction"]
         ok = len(init_calls) == 1 and reads and init_calls[0].lineno < min(r.lineno for r in reads)
         ctx.check(ok, rule, f"Network.{mname}:initialize before reading", (NF, fn.lineno), "the format class is initialised before any line is parsed")
